@@ -21,6 +21,7 @@ type memReader struct {
 	pos     *T // BV64
 	fail    *T // Bool: terminal error is an injected error instead of io.EOF
 	chunked bool
+	eofAt   *T // ReadAt: io.EOF together with a full read that ends at the end of the input
 	arb     int // number of reads with an arbitrary count (chunked)
 	nread   int
 	reqs    *T
@@ -810,6 +811,15 @@ func registerIntrinsics(m *Machine) {
 		}
 		if m.decide(Cmp("bvult", n, p.Len)) {
 			return done(Tuple{n, termErr(m, r)})
+		}
+		// a ReaderAt may return io.EOF together with a full read that ends exactly at the end of the input
+		if r.eofAt == nil {
+			e := Var(r.name+"_eofat", 64)
+			m.addInput(e)
+			r.eofAt = Not(Eq(e, BV(64, 0)))
+		}
+		if m.decide(And(Eq(Bin("bvadd", off, n), r.L), r.eofAt)) {
+			return done(Tuple{n, m.opaqueErr("io.EOF")})
 		}
 		return done(Tuple{n, Iface{}})
 	}
